@@ -29,8 +29,14 @@ func init() {
 			{Name: "mutations-map-orders", Pkg: ".", Files: files, Entry: "VerifMutations", Mode: "seq",
 				Quick: map[string]int{"maporder": 1, "healthyonly": 1}, Thorough: map[string]int{"maporder": 2, "healthyonly": 1},
 				Reach: []string{"healthy"}, Functions: pipelineFns},
+			// below the executor: one Query call of the real HTTP client is one POST, whatever status and body
+			// come back (a retry would execute the mutation twice)
+			{Name: "one-post-per-call", Pkg: "queryer", Files: []string{"queryer/c09.go"}, Entry: "VerifDownstreamAnswers", Mode: "seq",
+				Quick: map[string]int{"nmax": 2}, Thorough: map[string]int{"nmax": 3},
+				Reach:     []string{"failure signal", "answer accepted"},
+				Functions: []string{"queryer.(*MultiOpQueryer).Query", "queryer.(*MultiOpQueryer).queryBatch", "queryer.(*MultiOpQueryer).fetch", "queryer.(*MultiOpQueryer).sendQueryRequest", "queryer.(*MultiOpQueryer).sendRequest"}},
 		},
-		Assume:  []string{"gqlparser runs natively on concrete strings", "one canonical goroutine schedule", "single fault: one downstream call of one service fails"},
+		Assume:  []string{"gqlparser runs natively on concrete strings", "one canonical goroutine schedule", "single fault: one downstream call of one service fails", "one-post-per-call: net/http's client is the model (Do hands the request to the harness transport once; Request.GetBody is set as net/http.NewRequest does for in-memory bodies); status symbolic in [100,599], body shapes of the C09 descriptor"},
 		Outside: []string{"mutation operations beyond the scenario list", "sequences of several faults"},
 	})
 }
